@@ -125,8 +125,10 @@ func (g *gzipResponseWriter) Finish() error {
 		}
 	}
 
-	// acts as a fallback when Content-Length is not available.
-	if len(body) < g.minSize {
+	// acts as a fallback when Content-Length is not available. An empty body (204, 304, the
+	// reply to a HEAD) is never compressed, whatever min_size says: there is nothing to encode,
+	// and the headers must keep describing the backend's representation
+	if len(body) == 0 || len(body) < g.minSize {
 		g.sendHeader()
 		_, err := g.ResponseWriter.Write(body)
 		return err
